@@ -284,10 +284,7 @@ Proof.
         - intros x. rewrite E4. apply zmem_zrem.
         - exact E5. }
       clearbody sf. split; [|exact R]. exact (after_del_entry fd sf K' R). }
-    destruct (aget fd (s_rtok m)) as [t1|]; [|destruct (aget fd (s_wtok m)) as [t2|]].
-    + apply FIN; reflexivity.
-    + apply FIN; reflexivity.
-    + apply FIN; reflexivity.
+    cbv zeta. apply FIN; reflexivity.
   - exists m. split; [reflexivity|]. split; [exact Hm|].
     apply orb_false_iff in Ec as [E1 E2]. repeat split; try (intros x; unfold remm;
       (destruct (x =? fd) eqn:E; [apply Z.eqb_eq in E; subst x; cbn; assumption|reflexivity])).
